@@ -4,8 +4,8 @@
 
    What a netlist is, for the comparer (everything it can read):
      netlist  : name, EDIF.original_identifier, top instance, libraries (ordered)
-                (the namespace manager knows the names of all elements: true for every netlist
-                built, parsed or - since the repair of clone() - cloned through the API)
+                (children are found by their exact name in a table name -> first child built by
+                the comparer itself: no query, no pattern, no namespace manager involved)
      library  : name, original identifier, definitions (ordered)
      definition: name, original identifier, ports, cables, children (ordered)
      port     : name, original identifier, direction, is_array, number of pins (lower index kept,
@@ -16,7 +16,8 @@
      pin      : inner pin = (name of its port, index in that port);
                 outer pin = (name of its instance, name of the port of the inner pin, index);
                 the instance of an outer pin is the child of the enclosing definition with that
-                name (names of siblings are unique: the namespace manager refuses duplicates), its reference gives
+                name (names of siblings are unique: the namespace manager refuses duplicates;
+                a child without a name is not found that way: PAnon carries its reference), its reference gives
                 the definition/library names of the inner pin's port (Instance._pins mirrors the
                 reference: property C02);
                 dangling outer pin = pin of an instance that was removed from its definition
@@ -67,6 +68,9 @@ Inductive pinref :=
 | PIn (port : oname) (bit : nat)
 | POut (inst : oname) (port : oname) (bit : nat)
 | PDang (inst : oname) (rdef rlib : oname) (port : oname) (bit : nat)
+| PAnon (rdef rlib : oname) (port : oname) (bit : nat)
+    (* outer pin of a child without a name: the child is not identified by a name, so the
+       (definition, library) names of its reference are part of the pin *)
 | PForeign   (* a pin the comparer cannot follow (no instance, foreign port): outside the model *)
 | PLoose.    (* an inner pin that belongs to no port any more (Port.remove_pin leaves it on its wire) *)
 
@@ -91,11 +95,12 @@ Record nv := mknv {
 Inductive outcome :=
 | Accept      (* compare() returns *)
 | Reject      (* AssertionError *)
-| StopIter    (* next() on an empty query result: no longer raised (next(..., None) + assert) *)
-| IndexErr    (* name.split("_")[3] *)
+| StopIter    (* next() on an empty query result: no longer raised (table.get + assert) *)
+| IndexErr    (* properties_composer[x]: unreachable after the assert on the lengths
+                 (name.split("_")[3] is guarded by get_assignment_width since the repair) *)
 | KeyErr      (* properties_composer[x][key]: unreachable after the assert on the key sets *)
-| AttrErr     (* attribute of None *)
-| TypeErr     (* "..." + None while building the message of a failing assert *)
+| AttrErr     (* attribute of None: no longer raised (None-safe getters) *)
+| TypeErr     (* "..." + None while building a message: no longer raised (str()) *)
 | Ill.        (* the value is not the abstraction of a netlist the model covers *)
 
 Definition outcome_eqb (a b : outcome) : bool :=
@@ -109,46 +114,18 @@ Definition outcome_eqb (a b : outcome) : bool :=
 Definition seq (a b : outcome) : outcome := match a with Accept => b | x => x end.
 Definition check (b : bool) : outcome := if b then Accept else Reject.
 
-(* ---------- queries: sdn.get_xxx(parent, name) ---------- *)
-Definition is_wild (c : N) : bool := N.eqb c 42 || N.eqb c 63.   (* '*' '?' *)
-Definition absolute (p : str) : bool := negb (existsb is_wild p).
-
-(* fnmatchcase with only * and ? special (patterns.py escapes '[') *)
-Fixpoint glob (p : str) : str -> bool :=
-  match p with
-  | [] => fun v => match v with [] => true | _ => false end
-  | c :: p' =>
-    if N.eqb c 42 then
-      (fix st (v : str) : bool :=
-         glob p' v || match v with [] => false | _ :: v' => st v' end)
-    else
-      fun v => match v with
-               | [] => false
-               | x :: v' => (N.eqb c 63 || N.eqb c x) && glob p' v'
-               end
-  end.
-
+(* ---------- lookups: Comparer.index_by_name(children).get(name) ---------- *)
 Definition has_name {A} (name : A -> oname) (n : str) (x : A) : bool :=
   match name x with Some m => str_eqb m n | None => false end.
 
-(* scan used for patterns with wildcards: unnamed elements count as "" except instances,
-   which are skipped when they have no name *)
-Definition scan_match {A} (name : A -> oname) (skip_unnamed : bool) (pat : str) (x : A) : bool :=
-  match name x with
-  | Some m => glob pat m
-  | None => if skip_unnamed then false else glob pat []
-  end.
-
-(* next(sdn.get_xxx(parent, pat)): first result or nothing.  An absolute pattern is answered by
-   the namespace manager's table of the parent (sibling names are unique there, property C10:
-   the table holds exactly the named children); otherwise the children are scanned in order. *)
-Definition lookup {A} (name : A -> oname) (skip_unnamed : bool) (pat : str) (l : list A)
-  : option A :=
-  if absolute pat then find (has_name name pat) l
-  else find (scan_match name skip_unnamed pat) l.
+(* table = index_by_name(children): name -> the first child with that name; table.get(n).
+   The name is looked up literally (it was a glob pattern for sdn.get_xxx before the repair:
+   finding C20-wildcard-names-self-reject). *)
+Definition lookup {A} (name : A -> oname) (n : str) (l : list A) : option A :=
+  find (has_name name n) l.
 
 (* for orig in origs: if orig.name is None: continue; [if skip: continue];
-   c = next(get(composer_parent, orig.name), None); assert c is not None; compare(orig, c) *)
+   c = composer_table.get(orig.name); assert c is not None; compare(orig, c) *)
 Fixpoint cmp_each {A} (name : A -> oname) (skip : A -> bool) (look : str -> option A)
          (f : A -> A -> outcome) (origs : list A) : outcome :=
   match origs with
@@ -169,6 +146,30 @@ Fixpoint cmp_each {A} (name : A -> oname) (skip : A -> bool) (look : str -> opti
 Definition asg_prefix : str := s2l "SDN_Assignment_".
 Definition asg_pattern : str := s2l "SDN_Assignment_*".
 
+(* fnmatchcase with only * and ? special (patterns.py escapes '['): used only for the pattern
+   "SDN_Assignment_*" of the assignment count *)
+Fixpoint glob (p : str) : str -> bool :=
+  match p with
+  | [] => fun v => match v with [] => true | _ => false end
+  | c :: p' =>
+    if N.eqb c 42 then
+      (fix st (v : str) : bool :=
+         glob p' v || match v with [] => false | _ :: v' => st v' end)
+    else
+      fun v => match v with
+               | [] => false
+               | x :: v' => (N.eqb c 63 || N.eqb c x) && glob p' v'
+               end
+  end.
+
+(* sdn.get_instances(definition, pattern) with a wildcard pattern scans the children; instances
+   without a name are skipped *)
+Definition scan_match {A} (name : A -> oname) (skip_unnamed : bool) (pat : str) (x : A) : bool :=
+  match name x with
+  | Some m => glob pat m
+  | None => if skip_unnamed then false else glob pat []
+  end.
+
 Fixpoint starts_with (pre s : str) : bool :=
   match pre, s with
   | [], _ => true
@@ -185,8 +186,17 @@ Fixpoint split_us (s cur : str) : list str :=
 
 Definition asg_width (n : str) : option str := nth_error (split_us n []) 3.
 
+(* Comparer.get_assignment_width(name): the 4th "_" field of a name SDN_Assignment_<n>_<width>,
+   None for any other name (no name, another prefix, fewer than four fields: such a name is an
+   ordinary name since the repair; finding C20-assignment-name-indexerror) *)
+Definition asg_class (n : oname) : option str :=
+  match n with
+  | Some s => if starts_with asg_prefix s then asg_width s else None
+  | None => None
+  end.
+
 Definition is_asg_inst (i : inst) : bool :=
-  match i_name i with Some n => starts_with asg_prefix n | None => false end.
+  match asg_class (i_name i) with Some _ => true | None => false end.
 
 (* dictionary width -> count, in insertion order *)
 Fixpoint incr (k : str) (d : list (str * nat)) : list (str * nat) :=
@@ -195,35 +205,27 @@ Fixpoint incr (k : str) (d : list (str * nat)) : list (str * nat) :=
   | (k', n) :: d' => if str_eqb k k' then (k', S n) :: d' else (k', n) :: incr k d'
   end.
 
-(* the while loop over sdn.get_instances(definition, "SDN_Assignment_*"): None = IndexError *)
-Fixpoint count_widths (l : list inst) (d : list (str * nat)) : option (list (str * nat)) :=
+(* the while loop over sdn.get_instances(definition, "SDN_Assignment_*"):
+   num = get_assignment_width(name); if num is None: pass; else count *)
+Fixpoint count_widths (l : list inst) (d : list (str * nat)) : list (str * nat) :=
   match l with
-  | [] => Some d
+  | [] => d
   | i :: l' =>
     if scan_match i_name true asg_pattern i then
-      match i_name i with
-      | Some n => match asg_width n with
-                  | Some w => count_widths l' (incr w d)
-                  | None => None
-                  end
+      match asg_class (i_name i) with
+      | Some w => count_widths l' (incr w d)
       | None => count_widths l' d
       end
     else count_widths l' d
   end.
 
 Definition cmp_assign (o c : defn) : outcome :=
-  match count_widths (d_insts c) [] with
-  | None => IndexErr
-  | Some cd =>
-    match count_widths (d_insts o) [] with
-    | None => IndexErr
-    | Some od =>
-      check (forallb (fun kn => match sassoc (fst kn) od with
-                                | Some m => Nat.eqb m (snd kn)
-                                | None => false
-                                end) cd)
-    end
-  end.
+  let cd := count_widths (d_insts c) [] in
+  let od := count_widths (d_insts o) [] in
+  check (forallb (fun kn => match sassoc (fst kn) od with
+                            | Some m => Nat.eqb m (snd kn)
+                            | None => false
+                            end) cd).
 
 (* ---------- compare_ports ---------- *)
 (* ctx = (name of the enclosing definition, name of its library) *)
@@ -235,9 +237,8 @@ Definition cmp_port (xo xc : ctx) (o c : port) : outcome :=
  (seq (check (oname_eqb (p_oid o) (p_oid c)))
  (seq (check (dir_eqb (p_dir o) (p_dir c)))
  (seq (check (Bool.eqb (p_array o) (p_array c)))
- (seq (check (Nat.ltb 0 (p_width o) && Nat.ltb 0 (p_width c)))
  (seq (check (Nat.eqb (p_width o) (p_width c)))
-      (check (ctx_eqb xo xc))))))).
+      (check (ctx_eqb xo xc)))))).
 
 (* ---------- pins ---------- *)
 (* what the comparer reads through an outer pin *)
@@ -257,46 +258,27 @@ Definition resolve (x : ctx) (insts : list inst) (p : pinref) : rpin :=
                 end
     | None => RBad
     end
-  | POut None q b =>
-    (* the instance of the pin has no name: its reference is never read (inst_equiv stops at
-       the name) *)
-    ROut (mkopin None (None, None) (Some x) q b)
+  | POut None q b => RBad    (* a child without a name is not found by name: PAnon *)
+  | PAnon rd rl q b => ROut (mkopin None (rd, rl) (Some x) q b)
   | PDang n rd rl q b => ROut (mkopin n (rd, rl) None q b)
   | PForeign => RBad
   | PLoose => RLoose
   end.
 
-(* are_instances_equivalent *)
+(* are_instances_equivalent: two assignment names by their width fields, any other two names
+   (None included) by ==; then one assert on the identifiers of reference, library of the
+   reference, parent, library of the parent (None for what does not exist) *)
+Definition pctx (p : option ctx) : ctx := match p with Some x => x | None => (None, None) end.
+
 Definition inst_equiv (o c : opin) : outcome :=
   seq
-    (match op_inst o with
-     | None => AttrErr                           (* None.startswith *)
-     | Some on =>
-       if starts_with asg_prefix on then
-         match op_inst c with
-         | None => AttrErr
-         | Some cn =>
-           if starts_with asg_prefix cn then
-             match asg_width on, asg_width cn with
-             | Some x, Some y => check (str_eqb x y)
-             | _, _ => IndexErr
-             end
-           else check (str_eqb on cn)
-         end
-       else match op_inst c with
-            | Some cn => check (str_eqb on cn)
-            | None => TypeErr   (* "Names are not the same " + orig_name + " " + None *)
-            end
+    (match asg_class (op_inst o), asg_class (op_inst c) with
+     | Some x, Some y => check (str_eqb x y)
+     | _, _ => check (oname_eqb (op_inst o) (op_inst c))
      end)
-    (if oname_eqb (fst (op_ref o)) (fst (op_ref c)) && oname_eqb (snd (op_ref o)) (snd (op_ref c))
-     then
-       match op_parent o, op_parent c with
-       | Some po, Some pc => check (oname_eqb (fst po) (fst pc) && oname_eqb (snd po) (snd pc))
-       | None, None => AttrErr                   (* None == None, then None.library *)
-       | Some po, None => match fst po with None => AttrErr | Some _ => Reject end
-       | None, Some pc => match fst pc with None => AttrErr | Some _ => Reject end
-       end
-     else Reject).
+    (check (oname_eqb (fst (op_ref o)) (fst (op_ref c)) && oname_eqb (snd (op_ref o)) (snd (op_ref c))
+            && oname_eqb (fst (pctx (op_parent o))) (fst (pctx (op_parent c)))
+            && oname_eqb (snd (pctx (op_parent o))) (snd (pctx (op_parent c))))).
 
 (* are_inner_pins_equivalent; (definition, library) of the port given by dx *)
 Definition inner_equiv (bo : nat) (qo : oname) (dxo : ctx) (bc : nat) (qc : oname) (dxc : ctx)
@@ -307,7 +289,8 @@ Definition inner_equiv (bo : nat) (qo : oname) (dxo : ctx) (bc : nat) (qc : onam
 Definition cmp_pin (xo xc : ctx) (io ic : list inst) (po pc : pinref) : outcome :=
   match resolve xo io po, resolve xc ic pc with
   | RBad, _ | _, RBad => Ill
-  | RLoose, RLoose | RLoose, RIn _ _ | RIn _ _, RLoose => AttrErr   (* None.pins *)
+  | RLoose, RLoose => Accept                      (* index None, port None, definition None *)
+  | RLoose, RIn _ _ | RIn _ _, RLoose => Reject   (* Pin indices do not match *)
   | RIn qo bo, RIn qc bc => inner_equiv bo qo xo bc qc xc
   | ROut o, ROut c =>
     seq (inst_equiv o c) (inner_equiv (op_bit o) (op_port o) (op_ref o) (op_bit c) (op_port c) (op_ref c))
@@ -317,37 +300,35 @@ Definition cmp_pin (xo xc : ctx) (io ic : list inst) (po pc : pinref) : outcome 
 (* ---------- the pins of a wire are compared as a set ---------- *)
 (* get_pin_key: (is an outer pin, name of the instance - an assignment-style name is reduced to
    "SDN_Assignment_" + its width field -, name of the port, index in the port) *)
-Definition pkey := (bool * oname * oname * nat)%type.
+Definition pkey := (bool * oname * oname * option nat)%type.
+
+Definition onat_eqb (a b : option nat) : bool :=
+  match a, b with
+  | Some x, Some y => Nat.eqb x y
+  | None, None => true
+  | _, _ => false
+  end.
 
 Definition pkey_eqb (a b : pkey) : bool :=
   match a, b with
   | (ka, ia, qa, ba), (kb, ib, qb, bb) =>
-    Bool.eqb ka kb && oname_eqb ia ib && oname_eqb qa qb && Nat.eqb ba bb
+    Bool.eqb ka kb && oname_eqb ia ib && oname_eqb qa qb && onat_eqb ba bb
   end.
 
-(* instance_name = get_identifier(pin.instance); if it is not None and starts with
-   "SDN_Assignment_": "SDN_Assignment_" + instance_name.split("_")[3]  (IndexError) *)
-Definition inst_key (n : oname) : outcome + oname :=
-  match n with
-  | None => inr None
-  | Some s =>
-    if starts_with asg_prefix s then
-      match asg_width s with
-      | Some w => inr (Some (asg_prefix ++ w))
-      | None => inl IndexErr
-      end
-    else inr (Some s)
+(* instance_name = get_identifier(pin.instance); width = get_assignment_width(instance_name);
+   if width is not None: "SDN_Assignment_" + width *)
+Definition inst_key (n : oname) : oname :=
+  match asg_class n with
+  | Some w => Some (asg_prefix ++ w)
+  | None => n
   end.
 
+(* get_pin_index: None for a pin that belongs to no port *)
 Definition pin_key (x : ctx) (insts : list inst) (p : pinref) : outcome + pkey :=
   match resolve x insts p with
-  | RIn q b => inr (false, None, q, b)
-  | ROut o =>
-    match inst_key (op_inst o) with
-    | inl e => inl e
-    | inr k => inr (true, k, op_port o, op_bit o)
-    end
-  | RLoose => inl AttrErr                         (* port is None: None.pins *)
+  | RIn q b => inr (false, None, q, Some b)
+  | ROut o => inr (true, inst_key (op_inst o), op_port o, Some (op_bit o))
+  | RLoose => inr (false, None, None, None)
   | RBad => inl Ill
   end.
 
@@ -455,8 +436,7 @@ Fixpoint cmp_props (po pc : list pdict) : outcome :=
 Definition cmp_ref (ro rc : option (oname * oname)) : outcome :=
   match ro, rc with
   | None, None => Accept
-  | None, Some (dn, _) => match dn with None => AttrErr | Some _ => Reject end
-  | Some (dn, _), None => match dn with None => AttrErr | Some _ => Reject end
+  | None, Some _ | Some _, None => Reject
   | Some (d1, l1), Some (d2, l2) => check (oname_eqb d1 d2 && oname_eqb l1 l2)
   end.
 
@@ -464,11 +444,13 @@ Definition oi_name (i : option inst) : oname := match i with Some x => i_name x 
 Definition oi_oid (i : option inst) : oname := match i with Some x => i_oid x | None => None end.
 
 Definition cmp_inst (o c : option inst) : outcome :=
-  seq (check (oname_eqb (oi_name o) (oi_name c)))
- (seq (check (oname_eqb (oi_oid o) (oi_oid c)))
-      (match o, c with
-       | Some io, Some ic =>
-         seq (cmp_ref (i_ref io) (i_ref ic))
+  match o, c with
+  | None, None => Accept
+  | None, Some _ | Some _, None => Reject         (* One of the instances does not exist *)
+  | Some io, Some ic =>
+  seq (check (oname_eqb (i_name io) (i_name ic)))
+ (seq (check (oname_eqb (i_oid io) (i_oid ic)))
+        (seq (cmp_ref (i_ref io) (i_ref ic))
              (match i_props io with
               | None => match i_props ic with
                         | None => Accept
@@ -479,9 +461,8 @@ Definition cmp_inst (o c : option inst) : outcome :=
                            | Some pc =>
                              seq (check (Nat.eqb (length po) (length pc))) (cmp_props po pc)
                            end
-              end)
-       | _, _ => AttrErr                          (* None.reference *)
-       end)).
+              end)))
+  end.
 
 (* ---------- compare_definition / compare_libraries / compare ---------- *)
 Definition no_skip {A} (_ : A) : bool := false.
@@ -492,13 +473,13 @@ Definition cmp_def (lo lc : oname) (o c : defn) : outcome :=
   seq (check (oname_eqb (d_name o) (d_name c)))
  (seq (check (oname_eqb (d_oid o) (d_oid c)))
  (seq (check (Nat.eqb (length (d_ports o)) (length (d_ports c))))
- (seq (cmp_each p_name no_skip (fun n => lookup p_name false n (d_ports c))
+ (seq (cmp_each p_name no_skip (fun n => lookup p_name n (d_ports c))
                 (cmp_port xo xc) (d_ports o))
  (seq (check (Nat.eqb (length (d_cables o)) (length (d_cables c))))
- (seq (cmp_each c_name no_skip (fun n => lookup c_name false n (d_cables c))
+ (seq (cmp_each c_name no_skip (fun n => lookup c_name n (d_cables c))
                 (cmp_cable xo xc (d_insts o) (d_insts c)) (d_cables o))
  (seq (check (Nat.eqb (length (d_insts o)) (length (d_insts c))))
- (seq (cmp_each i_name is_asg_inst (fun n => lookup i_name true n (d_insts c))
+ (seq (cmp_each i_name is_asg_inst (fun n => lookup i_name n (d_insts c))
                 (fun a b => cmp_inst (Some a) (Some b)) (d_insts o))
       (cmp_assign o c)))))))).
 
@@ -506,7 +487,7 @@ Definition cmp_lib (o c : lib) : outcome :=
   seq (check (oname_eqb (l_name o) (l_name c)))
  (seq (check (oname_eqb (l_oid o) (l_oid c)))
  (seq (check (Nat.eqb (length (l_defs o)) (length (l_defs c))))
-      (cmp_each d_name no_skip (fun n => lookup d_name false n (l_defs c))
+      (cmp_each d_name no_skip (fun n => lookup d_name n (l_defs c))
                 (cmp_def (l_name o) (l_name c)) (l_defs o)))).
 
 Definition cmp_run (a b : nv) : outcome :=
@@ -517,7 +498,7 @@ Definition cmp_run (a b : nv) : outcome :=
        | ta, tb => cmp_inst ta tb
        end)
  (seq (check (Nat.eqb (length (n_libs a)) (length (n_libs b))))
-      (cmp_each l_name no_skip (fun n => lookup l_name false n (n_libs b))
+      (cmp_each l_name no_skip (fun n => lookup l_name n (n_libs b))
                 cmp_lib (n_libs a))))).
 
 (* Comparer(a, b).compare() returns normally *)
@@ -530,7 +511,7 @@ Fixpoint str_in (s : str) (l : list str) : bool :=
 Fixpoint nodup_str (l : list str) : bool :=
   match l with [] => true | x :: l' => negb (str_in x l') && nodup_str l' end.
 
-(* all siblings named, names without wildcard characters, pairwise different *)
+(* all siblings named, names pairwise different *)
 Fixpoint names_of {A} (name : A -> oname) (l : list A) : option (list str) :=
   match l with
   | [] => Some []
@@ -542,7 +523,7 @@ Fixpoint names_of {A} (name : A -> oname) (l : list A) : option (list str) :=
 
 Definition named_ok {A} (name : A -> oname) (l : list A) : bool :=
   match names_of name l with
-  | Some ns => forallb absolute ns && nodup_str ns
+  | Some ns => nodup_str ns
   | None => false
   end.
 
@@ -551,14 +532,7 @@ Fixpoint keys_nodup (d : pdict) : bool :=
 
 Definition wf_inst (i : inst) : bool :=
   match i_props i with None => true | Some ps => forallb keys_nodup ps end
-  && match i_name i with
-     | Some n => if starts_with asg_prefix n then
-                   match asg_width n with Some _ => true | None => false end
-                 else true
-     | None => false
-     end.
-
-Definition wf_port (p : port) : bool := Nat.ltb 0 (p_width p).
+  && match i_name i with Some _ => true | None => false end.
 
 Definition wf_pin (insts : list inst) (p : pinref) : bool :=
   match p with
@@ -575,7 +549,7 @@ Definition wf_cable (insts : list inst) (c : cable) : bool :=
   forallb (forallb (wf_pin insts)) (c_wires c).
 
 Definition wf_def (d : defn) : bool :=
-  named_ok p_name (d_ports d) && forallb wf_port (d_ports d)
+  named_ok p_name (d_ports d)
   && named_ok c_name (d_cables d) && forallb (wf_cable (d_insts d)) (d_cables d)
   && named_ok i_name (d_insts d) && forallb wf_inst (d_insts d).
 
